@@ -231,6 +231,9 @@ type Engine struct {
 	Components map[string][]string
 	Rule       string
 	Level      string
+	// Aux is an extra phase run by the driver after the search (returns VIOLATION lines and evidence notes).
+	Aux       func(d *driver) ([]string, map[string]interface{})
+	AuxReplay func(d *driver, rf *replayFile, path string) int
 	// Probes: named hand-written scenarios for known findings (stable against generator changes)
 }
 
